@@ -1,4 +1,5 @@
 import CohdlVerif.Model.Coro
+import CohdlVerif.Lemmas.C01Top5
 
 /-! C01 - theorems (moved from the design sketches; names prefixed C01.) -/
 open CohdlVerif.C01
@@ -268,3 +269,76 @@ example : closed 100 prog sm rel = true := by decide
 open CohdlVerif.C01.Example in
 /-- and the checker does reject a wrong machine -/
 example : closed 100 prog smBad rel = false := by decide
+
+/-!
+  ## The compiler mirror (Model/CoroCompile.lean `compileSM`) is correct - for ALL programs of a fragment
+
+  FULL statement (the goal; `wf` = break/continue only inside a loop of the same coroutine, return only inside an
+  awaited sub-coroutine, `await false` not inside a sub-coroutine; `compileSM p = some sm` = the mirror accepts,
+  i.e. no `continue` in the first state of its loop):
+
+      theorem C01.compile_correct (p : Stmt) (sm : SM) (hwf : wf p false false = true) (h : compileSM p = some sm)
+          (inp : Nat → σ → σ) (s0 : σ) (n : Nat) :
+          ∃ f, ∀ f', f ≤ f' → (refTrace act cond f' p inp n (some (.start, s0))).map (·.2) =
+            some (smTrace act cond sm inp n (0, s0)).2
+
+  PROVED below for the fragment `frag1` = skip | act | await c | await true | await false | if/else | while c |
+  while True, arbitrarily nested (every such program is well-formed: `frag1_wf`).  MISSING: `break`, `continue`,
+  `return`, awaited sub-coroutines (so a loop of the fragment is left only through its run-time condition).  The structural part of the proof (`compile_spec`: which blocks a translation
+  step may touch, for the whole grammar) and the heap / trace machinery are already general.
+-/
+
+/-- for every program of fragment 1, every interpretation of actions and conditions, every environment behaviour
+    `inp`, every initial data state and every number of clocks: if the mirror of the real open-blocks algorithm
+    produces the machine `sm`, the complete data state of `sm` after `n` clocks equals the data state of the
+    reference execution of the coroutine body (for every sufficiently large fuel of the reference interpreter, which
+    is in particular defined) -/
+theorem C01.compile_correct_partial (p : Stmt) (hp : frag1 p = true) (sm : SM) (h : compileSM p = some sm)
+    (inp : Nat → σ → σ) (s0 : σ) (n : Nat) :
+    ∃ f, ∀ f', f ≤ f' → (refTrace act cond f' p inp n (some (.start, s0))).map (·.2) =
+      some (smTrace act cond sm inp n (0, s0)).2 :=
+  compile_correct_frag1 act cond p hp sm h inp s0 n
+
+/-- the structural theorem behind it holds for the WHOLE grammar: a translation step only touches its open blocks
+    and the blocks it creates, open blocks / break / continue / return lists only receive such blocks, roots and
+    states are stable, every transition targets an existing state -/
+theorem C01.compile_step (p : Stmt) (l c : Bool) (hwf : wf p l c = true) (O : List Nat) (s : CSt)
+    (hl : Hlt s O) (hs : s.atStart = true → O = [0]) (hL : l = true → s.atStart = false) :
+    Step s O (compile p O s).2 (compile p O s).1 :=
+  (compile_spec p l c hwf O s hl hs hL).1
+
+namespace CohdlVerif.C01.Example
+/-- a program of fragment 1: await in both branches of an if, await true, await false -/
+def prog1 : Stmt :=
+  .act 1 (.ite 7 (.await (some 3) (.act 2 .skip)) (.act 4 (.await none .skip)) (.act 5 (.ite 8 .awaitF .skip (.act 6 .skip))))
+end CohdlVerif.C01.Example
+
+open CohdlVerif.C01.Example in
+/-- non-vacuity of `C01.compile_correct_partial`: the hypotheses hold for a concrete program with awaits inside
+    branches (the machine is computed by the kernel) -/
+example : frag1 prog1 = true ∧ wf prog1 false false = true ∧
+    (compileSM prog1).map (·.codes) = some
+      [ .act 1 (.ite 7 (.trans 1 .nil) (.trans 2 (.act 4 .nil)) .nil),
+        .ite 3 (.act 2 (.act 5 (.ite 8 (.trans 3 .nil) (.trans 0 (.act 6 .nil)) .nil))) .nil .nil,
+        .act 5 (.ite 8 (.trans 4 .nil) (.trans 0 (.act 6 .nil)) .nil),
+        .nil, .nil ] := by decide
+
+open CohdlVerif.C01.Example in
+/-- the mirror on the upstream loop design (loop + await + break + continue): it is well-formed, accepted, and the
+    mirror's machine IS the real emitted state machine `Example.sm` -/
+example : wf prog false false = true ∧ (compileSM prog).map (·.codes) = some sm.codes := by decide
+
+namespace CohdlVerif.C01.Example
+/-- a program of fragment 1 with loops: a loop as first statement (the first state is its head), an await and a nested
+    `while True` with an await inside a branch -/
+def prog2 : Stmt :=
+  .while_ (some 3) (.act 2 (.await (some 0) (.act 3 .skip)))
+    (.act 5 (.while_ none (.ite 4 (.await none (.act 6 .skip)) (.act 7 .skip) (.act 8 .skip)) .skip))
+end CohdlVerif.C01.Example
+
+open CohdlVerif.C01.Example in
+/-- non-vacuity with loops: `prog2` is in the fragment and the mirror produces a machine for it -/
+example : frag1 prog2 = true ∧ (compileSM prog2).isSome = true := by decide
+
+/-- the mirror rejects `continue` in the first state of its loop, as the real compiler does -/
+example : compileSM (.while_ (some 1) (.act 1 .cont) .skip) = none := by decide
